@@ -140,7 +140,7 @@ def rules_C03(ctx):
 
 
 def rules_C16(ctx):
-    return total_for("C16", ctx) + [codec.run(ctx), structural.wf(ctx, marker_generic=False)]
+    return total_for("C16", ctx) + [codec.run(ctx), codec.compact_modes(ctx), structural.wf(ctx, marker_generic=False)]
 
 
 def overflow_for(pid, ctx):
